@@ -139,6 +139,18 @@ def run(tier, seed, repo, focus=None):
                     res.count(key=repr(scn), nontrivial=n1 != n2, check="NN space partitioner")
                     if msg:
                         res.violation("NNSP: " + msg, REPLAY % dict(verif=VERIF, scn=scn, which="partition"), known)
+    import numpy as _np
+    prng = _np.random.RandomState(seed + 1010)
+    for r in range(4 if quick else 40):
+        scn = {"seed": seed + r, "batches": 9, "k": int(prng.randint(1, 7)), "sampling_times": int(prng.randint(2, 60)),
+               "alpha": float(prng.choice([0.01, 0.05, 0.2, 0.5])), "lattice": bool(prng.randint(0, 2))}
+        try:
+            msg = check_nndvi(scn)
+        except Exception as e:
+            msg = "%s: %s" % (type(e).__name__, e)
+        res.count(key=repr(scn), nontrivial=True, n=9, check="NNDVI rule (random parameters)")
+        if msg:
+            res.violation("NNDVI: " + msg, REPLAY % dict(verif=VERIF, scn=scn, which="nndvi"), known)
     for s in range(3 if quick else 15):
         for (k, st, alpha) in ((3, 30, 0.1), (2, 20, 0.05), (3, 1, 0.1), (4, 50, 0.01)):
             for lattice in (False, True):
